@@ -147,6 +147,7 @@ fn valid_command_line() -> BoxedStrategy<Vec<u8>> {
 fn unknown_command_line() -> BoxedStrategy<Vec<u8>> {
     prop::sample::select(vec![
         "@", "@foo", "@CWD /x", "@cwd\t/x", "@cwdx /y", "@ cwd /x", "@@cwd /", "@option", "@option  other",
+        "@option preserved", "@option preserve ", "@option preserve\r", "@option preserve=no", "@option preserv", "@option PRESERVE", "@option preserve preserve",
         "@ignore x", "@name", "@cwd", "@exec ", "@pkgdep  ", "@dirrm",
     ])
     .prop_map(|s| s.as_bytes().to_vec())
